@@ -8,15 +8,21 @@
    integral laws themselves are not provable with them.  What is proved, for the models of
    Model/CoreModel.v over Coq's reals (tied to the implementation by the float correspondence
    of harness/props/C14.py), is
-     * the LOCAL form of both laws where it is tractable: div F = 0 and curl F = 0 for
-       F = B and F = H of the dipole (off the dipole) and of the sphere (exterior and interior);
-     * the source term of both laws for the sphere: B - mu0 H = J 1_inside.
-   Cuboid, Cylinder, CylinderSegment, Tetrahedron, TriangularMesh, the general Circle branch,
-   Polyline, collections, arbitrary surfaces / loops: quadrature sweep on the implementation
-   only (search, not proof). *)
+     * the LOCAL form of both laws where it is tractable: F differentiable, div F = 0 and
+       curl F = 0 for F = B and F = H of the dipole (off the dipole), of the sphere (exterior
+       and interior), and for H of a CLOSED Polyline (clear of the wire's supporting lines);
+       for an open vertex chain div H = 0 and curl H = the two end-point source terms;
+     * the jump conditions at the sphere surface (normal B and tangential H continuous, normal
+       H jumps by M.n) that make the laws hold for surfaces / loops cutting the boundary;
+     * the source term of both laws: B - mu0 H = J 1_inside (sphere), B = mu0 H (dipole);
+     * one honest one-dimensional integral: Ampere's law along the axis of a Circle.
+   Cuboid, Cylinder, CylinderSegment, Tetrahedron, TriangularMesh, the general (off-axis)
+   Circle branch, collections, arbitrary surfaces / loops: quadrature sweep on the
+   implementation only (search, not proof). *)
 From Coq Require Import Reals.
 From Coquelicot Require Import Coquelicot.
-From MV Require Import Model.CoreNum Model.CoreModel Model.CoreSpec Model.LawsModel Proofs.LawsProofs.
+From Coq Require Import List.
+From MV Require Import Model.CoreNum Model.CoreModel Model.CoreSpec Model.LawsModel Proofs.LawsProofs Proofs.LawsPolyline.
 Open Scope R_scope.
 
 (* dipole_Hfield / BHJM_dipole, B and H: differentiable, divergence-free and curl-free at every
@@ -90,3 +96,40 @@ Example C14_nonvacuous :
   (1, 0, 0) <> (0, 0, 0) /\ Rabs 1 / 2 < Rnorm (1, 0, 0) /\ Rnorm (0, 0, 0) < Rabs 1 / 2
   /\ Rnorm (1 / 2, 0, 0) = Rabs 1 / 2 /\ 0 < Rabs 1.
 Proof. exact laws_nonvacuous. Qed.
+
+(* ------------------------------------------------------------------ Polyline (closed current loops)
+   The model of current_polyline_Hfield (all three sign branches) equals the textbook field of
+   a straight current segment whenever the segment is not degenerate and the observer is off
+   the code's on-line threshold (distance to the supporting line >= 1e-15 segment lengths) *)
+Theorem C14_polyline_segment_closed_form : forall (o p1 p2 : RV3) (cur : R),
+  p1 <> p2 ->
+  1 / 1000000000000000 * Rdot (Rvsub p2 p1) (Rvsub p2 p1) <= sqrt (seg_D (Rvsub o p1) (Rvsub p2 p1)) ->
+  polyline_H NumR o p1 p2 cur = seg_H cur p1 p2 o.
+Proof. exact polyline_is_seg_H. Qed.
+Print Assumptions C14_polyline_segment_closed_form.
+
+(* the field summed over a vertex chain (current_vertices_field) is differentiable and
+   divergence-free clear of the conductor's supporting lines, and its curl is exactly the
+   difference of the point-source terms cur/(4 pi) v/|v|^3 at the two ends of the chain ... *)
+Theorem C14_polyline_chain_div_curl : forall (cur : R) (vs : list RV3) (o d : RV3),
+  poly_clear o vs ->
+  differentiable_at (poly_sum cur vs) o
+  /\ divergence (poly_sum cur vs) o = 0
+  /\ curl (poly_sum cur vs) o
+     = Rvsub (pointK cur (Rvsub o (last vs d))) (pointK cur (Rvsub o (hd d vs))).
+Proof. exact polyline_chain_laws. Qed.
+Print Assumptions C14_polyline_chain_div_curl.
+
+(* ... so for a CLOSED Polyline (first vertex = last vertex) H is curl-free and divergence-free:
+   the local form of "circulation of H = threading current" away from the wire.  (The step from
+   curl H = 0 to the value of the circulation around a linking loop is Stokes + the singular
+   contribution of the wire: NOT proved.) *)
+Theorem C14_closed_polyline_source_free_partial : forall (cur : R) (vs : list RV3) (o d : RV3),
+  hd d vs = last vs d -> poly_clear o vs -> source_free_at (poly_sum cur vs) o.
+Proof. exact closed_polyline_source_free. Qed.
+Print Assumptions C14_closed_polyline_source_free_partial.
+
+Example C14_polyline_nonvacuous :
+  let vs := ((0, 0, 0) :: (1, 0, 0) :: (0, 1, 0) :: (0, 0, 0) :: nil)%list in
+  poly_clear (0, 0, 1) vs /\ hd (0, 0, 0) vs = last vs (0, 0, 0).
+Proof. exact polyline_nonvacuous. Qed.
